@@ -788,7 +788,7 @@ theorem gen_closed_roll :
 theorem gen_working_vertices :
     (PW.Gen.PolySlice.closedSignsSrc = "np.sign(plane.signed_distance(self.v))" ∧
       PW.Gen.PolySlice.rolledSrc = "np.roll(self.v, ROLL, axis=0)" ∧
-      PW.Gen.PolySlice.workingSrc = "np.vstack([ROLLED, ROLLED[:1]]) if self.is_closed and self.num_v > 1 else self.v" ∧
+      PW.Gen.PolySlice.workingSrc = "_vcat([ROLLED, ROLLED[:1]]) if self.is_closed and self.num_v > 1 else self.v" ∧
       PW.Gen.PolySlice.closedGuardSrc = "self.is_closed and self.num_v > 1" ∧
       PW.Gen.PolySlice.resultSrc = "Polyline(is_closed=False, v=slice_open_polyline_by_plane(WORKING, plane))" ∧
       PW.Gen.PolySlice.closedGuardLhs = "self.num_v" ∧ PW.Gen.PolySlice.rollAxis = 0) ∧
@@ -841,6 +841,6 @@ theorem gen_function_shapes :
       [("slice_open_polyline_by_plane", [], "vertices, plane", ["importfrom from .. import Plane", "def"], 0),
        ("slice_open_polyline_by_plane.<local helper>", [], "2 positional", [], 0),
        ("Polyline.sliced_by_plane", [], "self, plane", ["importfrom from ._slice_by_plane import slice_open_polyline_by_plane"], 0),
-       ("intersect_segment_with_plane", [], "start_points, segment_vectors, points_on_plane, plane_normals", ["expr vg.shape.check(locals(), 'segment_vectors', start_points.shape)", "expr vg.shape.check(locals(), 'points_on_plane', start_points.shape)", "expr vg.shape.check(locals(), 'plane_normals', start_points.shape)"], 0)] := by rfl
+       ("intersect_segment_with_plane", [], "start_points, segment_vectors, points_on_plane, plane_normals", ["expr vg.shape.check(locals(), 'plane_normals', start_points.shape)", "expr vg.shape.check(locals(), 'points_on_plane', start_points.shape)", "expr vg.shape.check(locals(), 'segment_vectors', start_points.shape)"], 0)] := by rfl
 
 end PW.C06
